@@ -86,6 +86,7 @@ PENDING_FINDINGS = [
 ]
 
 INTENTS = [1008, 1009, 2001]      # POINTSET, TRIANGLE, TIME_SERIES (the one agg_data stacks)
+INTENTS4 = [0, 1008, 1009, 2001]  # + NONE: integer code 0 (falsy), the default intent of GiftiDataArray
 DTYPES = {'uint8': ('u', 1), 'int32': ('i', 4), 'float32': ('f', 4)}
 ENC_SPEC = {'ASCII': 'ASCII', 'B64BIN': 'Base64Binary', 'B64GZ': 'GZipBase64Binary'}
 
@@ -134,6 +135,8 @@ def regen():
            'namespace Nb.C17.Gen', '',
            'def codes : Codes := {',
            f'  intent := {_alias_table(n1.intent_codes)},',
+           '  intentCodes := [' + ', '.join(str(c) for c in sorted(int(k) for k in n1.intent_codes.code
+                                                          if isinstance(k, (int, np.integer)) and not isinstance(k, bool))) + '],',
            f'  dtype := {_alias_table(n1.data_type_codes)},',
            '  dtinfo := [' + ', '.join(f"({c}, {s}, '{k}')" for c, s, k in dtinfo) + '],',
            f'  xform := {_alias_table(n1.xform_codes)},',
@@ -201,13 +204,59 @@ def float_token_bits(tok):
 
 # ------------------------------------------------------------------------------------------ hist
 
-def _intent_arg(code, kind):
-    g, p, u, n1 = _mods()
-    if kind == 1:
-        return n1.intent_codes.niistring[code]
-    if kind == 2:
-        return n1.intent_codes.label[code]
-    return code
+# The harness's OWN table of the standard NIfTI intent names it uses (not read from nibabel): code -> (niistring,
+# label).  Code 0 (NIFTI_INTENT_NONE) is the default intent of GiftiDataArray and is falsy as a Python int.
+ALIAS = {0: ('NIFTI_INTENT_NONE', 'none'), 1002: ('NIFTI_INTENT_LABEL', 'label'),
+         1008: ('NIFTI_INTENT_POINTSET', 'pointset'), 1009: ('NIFTI_INTENT_TRIANGLE', 'triangle'),
+         2001: ('NIFTI_INTENT_TIME_SERIES', 'time series'), 2005: ('NIFTI_INTENT_SHAPE', 'shape')}
+ALIAS_CODE = {n: c for c, names in ALIAS.items() for n in names}
+BAD_ARGS = [1, 1000, 999999, 'NIFTI_INTENT_BOGUS', 'POINTSET', 'pointset ', '', 'None', '0']
+
+
+def norm_arg(op, i=1):
+    """intent argument of an op as int | str | None.  Legacy shape [k, code, kind]: kind 1 = niistring, 2 = label."""
+    a = op[i]
+    if isinstance(a, int) and not isinstance(a, bool) and len(op) > i + 1 and op[i + 1] in (1, 2) and op[0] in 'rgA':
+        return ALIAS[a][op[i + 1] - 1]
+    return a
+
+
+def py_arg(a):
+    """the Python object handed to nibabel: ['np', n] = a NumPy integer scalar"""
+    if isinstance(a, list):
+        return np.int32(a[1])
+    return a
+
+
+def arg_tok(a):
+    if a is None:
+        return '_'
+    if isinstance(a, list):
+        return str(a[1])
+    if isinstance(a, str):
+        return 's:' + enc_text(a)
+    return str(int(a))
+
+
+def ref_code(a):
+    """reference resolution of an intent argument: code, or None = KeyError"""
+    if isinstance(a, list):
+        a = a[1]
+    if isinstance(a, str):
+        return ALIAS_CODE.get(a)
+    return a if a in ALIAS or a in _all_int_codes() else None
+
+
+_INT_CODES = None
+
+
+def _all_int_codes():
+    # the integer codes of the NIfTI-1 standard (nifti1.h): statistics 2..24, 1001..1011, 2001..2018 subset, 3000..3009
+    global _INT_CODES
+    if _INT_CODES is None:
+        _INT_CODES = set([0] + list(range(2, 25)) + list(range(1001, 1012)) + list(range(2001, 2010)) +
+                         [2016, 2017, 2018] + [3000, 3001, 3002, 3003, 3004, 3006, 3007, 3008, 3009])
+    return _INT_CODES
 
 
 def hist_line(ops):
@@ -215,17 +264,15 @@ def hist_line(ops):
     for op in ops:
         k = op[0]
         if k == 'a':
-            toks.append(f'a{op[1]}:{op[2]}')
+            toks.append(f'a{op[1]}:' + ('d' if op[2] is None else arg_tok(op[2])))
         elif k == 'p':
             toks.append(f'p{op[1]}')
-        elif k == 'r':
-            toks.append(f'r{op[1]}')
-        elif k == 'g':
-            toks.append(f'g{op[1]}')
+        elif k in 'rg':
+            toks.append(k + arg_tok(norm_arg(op)))
         elif k == 'A':
-            toks.append('A_' if op[1] is None else f'A{op[1]}')
+            toks.append('A' + arg_tok(norm_arg(op)))
         elif k == 'T':
-            toks.append('T' + (','.join(map(str, op[1])) if op[1] else '-'))
+            toks.append('T' + (','.join(arg_tok(a) for a in op[1]) if op[1] else '-'))
         else:
             raise ValueError(op)
     return 'C17 hist ' + ' '.join(toks) if toks else 'C17 hist'
@@ -261,28 +308,35 @@ def impl_hist(case):
     for op in case.data['ops']:
         k = op[0]
         res = '-'
-        if k == 'a':
-            if op[1] not in objs:
-                d = g.GiftiDataArray(np.full((2,), op[1], dtype=np.int32), intent=op[2])
-                objs[op[1]] = d
-                ident[id(d)] = op[1]
-            img.add_gifti_data_array(objs[op[1]])
-        elif k == 'p':
-            try:
-                img.remove_gifti_data_array(op[1])
-            except IndexError:
-                res = 'ERR:IndexError'
-        elif k == 'r':
-            img.remove_gifti_data_array_by_intent(_intent_arg(op[1], op[2] if len(op) > 2 else 0))
-        elif k == 'g':
-            sel = img.get_arrays_from_intent(_intent_arg(op[1], op[2] if len(op) > 2 else 0))
-            res = 'g' + lst([ident.get(id(d), -1) for d in sel])
-        elif k == 'A':
-            r = img.agg_data() if op[1] is None else img.agg_data(_intent_arg(op[1], op[2] if len(op) > 2 else 0))
-            res = _agg_token(r, objs, problems)
-        elif k == 'T':
-            r = img.agg_data(tuple(op[1]))
-            res = '+'.join(_agg_token(x, objs, problems) for x in r)
+        try:
+            if k == 'a':
+                if op[1] not in objs:
+                    data = np.full((2,), op[1], dtype=np.int32)
+                    d = g.GiftiDataArray(data) if op[2] is None else g.GiftiDataArray(data, intent=py_arg(op[2]))
+                    objs[op[1]] = d
+                    ident[id(d)] = op[1]
+                img.add_gifti_data_array(objs[op[1]])
+            elif k == 'p':
+                try:
+                    img.remove_gifti_data_array(op[1])
+                except IndexError:
+                    res = 'ERR:IndexError'
+            elif k == 'r':
+                img.remove_gifti_data_array_by_intent(py_arg(norm_arg(op)))
+            elif k == 'g':
+                sel = img.get_arrays_from_intent(py_arg(norm_arg(op)))
+                res = 'g' + lst([ident.get(id(d), -1) for d in sel])
+            elif k == 'A':
+                a = norm_arg(op)
+                r = img.agg_data() if a is None else img.agg_data(py_arg(a))
+                res = _agg_token(r, objs, problems)
+            elif k == 'T':
+                r = img.agg_data(tuple(py_arg(a) for a in op[1]))
+                if not isinstance(r, tuple):
+                    problems.append(f'agg_data(tuple) returned {type(r).__name__}')
+                res = 'T(' + '+'.join(_agg_token(x, objs, problems) for x in r) + ')'
+        except KeyError:
+            res = 'ERR:KeyError'
         state = [ident.get(id(d), -1) for d in img.darrays]
         if img.numDA != len(state):
             problems.append('numDA != len(darrays)')
@@ -303,25 +357,44 @@ def ref_hist(ops):
         if len(ids) == 1:
             return 'O%d' % ids[0]
         return 'T' + lst(ids)
+
+    def agg_arg(a):
+        if a is None:
+            return agg(ref)
+        c = ref_code(a)
+        if c is None:
+            raise KeyError(a)
+        return agg([i for i in ref if intent_of[i] == c])
     for op in ops:
         k, res = op[0], '-'
-        if k == 'a':
-            intent_of.setdefault(op[1], op[2])
-            ref.append(op[1])
-        elif k == 'p':
-            n, i = len(ref), op[1]
-            if -n <= i < n:
-                del ref[i]
-            else:
-                res = 'ERR:IndexError'
-        elif k == 'r':
-            ref = [i for i in ref if intent_of[i] != op[1]]
-        elif k == 'g':
-            res = 'g' + lst([i for i in ref if intent_of[i] == op[1]])
-        elif k == 'A':
-            res = agg(ref if op[1] is None else [i for i in ref if intent_of[i] == op[1]])
-        elif k == 'T':
-            res = '+'.join(agg([i for i in ref if intent_of[i] == c]) for c in op[1])
+        try:
+            if k == 'a':
+                if op[1] not in intent_of:
+                    c = 0 if op[2] is None else ref_code(op[2])
+                    if c is None:
+                        raise KeyError(op[2])
+                    intent_of[op[1]] = c
+                ref.append(op[1])
+            elif k == 'p':
+                n, i = len(ref), op[1]
+                if -n <= i < n:
+                    del ref[i]
+                else:
+                    res = 'ERR:IndexError'
+            elif k in 'rg':
+                c = ref_code(norm_arg(op))
+                if c is None:
+                    raise KeyError(op[1])
+                if k == 'r':
+                    ref = [i for i in ref if intent_of[i] != c]
+                else:
+                    res = 'g' + lst([i for i in ref if intent_of[i] == c])
+            elif k == 'A':
+                res = agg_arg(norm_arg(op))
+            elif k == 'T':
+                res = 'T(' + '+'.join([agg_arg(a) for a in op[1]]) + ')'
+        except KeyError:
+            res = 'ERR:KeyError'
         outs.append(lst(ref) + '/' + res)
     return outs
 
@@ -1167,21 +1240,52 @@ def rand_image(rng, zero=False):
             'hops': rng.choice([1, 1, 2])}
 
 
+def rand_intent_arg(rng, codes, bad=0.04):
+    """an intent argument in one of the forms the API accepts: integer code, NumPy integer, niistring, label"""
+    if rng.random() < bad:
+        return rng.choice(BAD_ARGS)
+    c = rng.choice(codes)
+    f = rng.randrange(5)
+    if f <= 1:
+        return c
+    if f == 2:
+        return ['np', c]
+    return ALIAS[c][f - 3]
+
+
+def hist_probes(codes):
+    """every selection / aggregation the API offers, asked for every intent of `codes` BY INTEGER CODE (0 included)
+    and by a string alias, plus all arrays, plus tuples (mixed forms, None element, repeated element)"""
+    probes = []
+    for k, it in enumerate(codes):
+        probes += [['g', it], ['A', it], ['g', ALIAS[it][k % 2]], ['A', ALIAS[it][(k + 1) % 2]]]
+    probes += [['A', None], ['T', [codes[-1], codes[0]]], ['T', [codes[0], None, ALIAS[codes[1]][1], codes[0]]],
+               ['T', []]]
+    return probes
+
+
 def hist_cases(rng, tier):
     out = []
     nmax = 6 if tier == 'thorough' else 5
-    probes = [['g', it, k] for k, it in enumerate(INTENTS)] + [['A', None], ['T', [INTENTS[2], INTENTS[0]]]] + \
-             [['A', it, (k + 1) % 3] for k, it in enumerate(INTENTS)]
-    for n in range(nmax + 1):
-        for seq in itertools.product(INTENTS, repeat=n):
-            adds = [['a', i, it] for i, it in enumerate(seq)]
-            muts = [['r', it, k % 3] for k, it in enumerate(INTENTS)] + [['p', i] for i in range(-n - 1, n + 1)]
-            for j, m in enumerate(muts):
-                pre = probes if j == 0 else probes[j % len(probes):j % len(probes) + 1]
-                out.append(mk_hist(adds + pre + [m] + probes))
+
+    def grid(codes, lengths):
+        probes = hist_probes(codes)
+        for n in lengths:
+            for seq in itertools.product(codes, repeat=n):
+                # arrays of intent 0 are created WITHOUT an intent argument (constructor default) every other time
+                adds = [['a', i, (None if it == 0 and i % 2 else it)] for i, it in enumerate(seq)]
+                muts = [['r', (it if k % 3 == 0 else ALIAS[it][k % 3 - 1])] for k, it in enumerate(codes)] + \
+                       [['r', it] for it in codes if it == 0] + [['p', i] for i in range(-n - 1, n + 1)]
+                for j, m in enumerate(muts):
+                    pre = probes if j == 0 else probes[j % len(probes):j % len(probes) + 1]
+                    out.append(mk_hist(adds + pre + [m] + probes))
+    # three codes incl. 0 (NONE: falsy, the default) and TIME_SERIES (stacked) up to nmax; four codes one shorter
+    grid([0, 1008, 2001], range(nmax + 1))
+    grid(INTENTS4, range(1, nmax))
     nrand = {'quick': 2000, 'thorough': 20000, 'search': 2000}[tier]
     for _ in range(nrand):
-        ops, nid, live = [], 0, []
+        ops, nid = [], 0
+        codes = rng.choice([INTENTS4, INTENTS4, [0, 2001], [0, 1008], sorted(ALIAS)])
         for _ in range(rng.randrange(1, 16)):
             r = rng.random()
             if r < 0.4 or not nid:
@@ -1189,18 +1293,20 @@ def hist_cases(rng, tier):
                     i = rng.randrange(nid)               # the same object added again
                     ops.append(['a', i, [o for o in ops if o[0] == 'a' and o[1] == i][0][2]])
                 else:
-                    ops.append(['a', nid, rng.choice(INTENTS)])
+                    a = rand_intent_arg(rng, codes, 0.02)
+                    ops.append(['a', nid, None if a == 0 and rng.random() < 0.5 else a])
                     nid += 1
             elif r < 0.55:
                 ops.append(['p', rng.randrange(-nid - 1, nid + 1)])
             elif r < 0.7:
-                ops.append(['r', rng.choice(INTENTS), rng.randrange(3)])
+                ops.append(['r', rand_intent_arg(rng, codes)])
             elif r < 0.8:
-                ops.append(['g', rng.choice(INTENTS), rng.randrange(3)])
+                ops.append(['g', rand_intent_arg(rng, codes)])
             elif r < 0.92:
-                ops.append(['A', rng.choice([None] + INTENTS), rng.randrange(3)])
+                ops.append(['A', None] if rng.random() < 0.2 else ['A', rand_intent_arg(rng, codes)])
             else:
-                ops.append(['T', [rng.choice(INTENTS) for _ in range(rng.randrange(0, 4))]])
+                ops.append(['T', [None if rng.random() < 0.1 else rand_intent_arg(rng, codes, 0.02)
+                                  for _ in range(rng.randrange(0, 4))]])
         out.append(mk_hist(ops, 'hist-random'))
     return out
 
